@@ -142,17 +142,27 @@ Proof.
     apply SP_okthen; [apply SP_write|apply IH].
 Qed.
 
+(* a choice that depends on the state only *)
+Lemma SP_choice {A} (g : est -> res A) (F : A -> est -> sink -> out) :
+  (forall b, SP (F b)) -> SP (fun s k => of_res (g s) s k (fun b => F b s k)).
+Proof.
+  intros H s a m. destruct (g s) as [b| | |]; cbn [of_res]; [apply H| | |];
+    (exists []; rewrite app_nil_r; split; [reflexivity|]; simpl; rewrite Nat.sub_0_r; auto).
+Qed.
 Lemma SP_render_for body x len base : SP body -> forall vs i, SP (render_for_loop body x len base vs i).
 Proof.
   intros Hb. induction vs as [|v vs IH]; intro i; [apply (SP_ret ODone)|].
-  eapply SP_ext with (f := bindK (fun s k => body (push_sandbox (upsert x v (upsert k_forloop (forloop_obj i len None) base)) s) k)
+  eapply SP_ext with (f := fun s k => of_res (base s) s k (fun b0 =>
+    bindK (fun s k => body (push_sandbox (upsert x v (upsert k_forloop (forloop_obj i len None) b0)) s) k)
       (fun o s' => match o with
                    | ODone => if (match r_intr (get_regs s') with Some Brk => true | _ => false end)
                               then inl (ODone, pop_sandbox s') else inr (render_for_loop body x len base vs (i + 1)%Z, pop_sandbox s')
-                   | _ => inl (o, pop_sandbox s') end)).
-  - intros s k. cbn [render_for_loop]. unfold bindK. destruct (body _ k) as [[o s'] k']. destruct o; try reflexivity.
+                   | _ => inl (o, pop_sandbox s') end) s k)).
+  - intros s k. cbn [render_for_loop]. destruct (base s) as [b0| | |]; cbn [of_res]; try reflexivity.
+    unfold bindK. destruct (body _ k) as [[o s'] k']. destruct o; try reflexivity.
     destruct (match r_intr (get_regs s') with Some Brk => true | _ => false end); reflexivity.
-  - apply SP_bindK; [apply (SP_pre body _ Hb)|]. split; [intros s'; eexists; reflexivity|].
+  - apply (SP_choice base). intro b0.
+    apply SP_bindK; [apply (SP_pre body _ Hb)|]. split; [intros s'; eexists; reflexivity|].
     intros o s' c s2 D. destruct o; try discriminate.
     destruct (match r_intr (get_regs s') with Some Brk => true | _ => false end); inversion D; subst; apply IH.
 Qed.
